@@ -108,15 +108,29 @@ Record pod := mkPod {
   p_tsc : list (string * bool);         (* topology spread: id, WhenUnsatisfiable = ScheduleAnyway *)
   p_tols : list toleration;
   p_ports : list hp;                    (* GetHostPorts(pod) *)
-  p_requests : rl                       (* PodData.Requests (incl. "pods": 1000) *)
+  p_requests : rl;                      (* PodData.Requests (incl. "pods": 1000) *)
+  p_vols : list (string * string);      (* scheduling.GetVolumes(pod): CSI driver, PVC id *)
+  p_valts : list reqs;                  (* PodData.VolumeRequirements: alternatives computed by VolumeTopology.GetRequirements *)
+  p_volterms : list (list term)         (* SPEC side: per volume the OR-ed topology terms of its PV node affinity /
+                                           StorageClass allowedTopologies (hostname dropped for local volumes) *)
 }.
 
-Definition expr_req (e : expr) : string * req := let '(k, o, vs) := e in (k, new_req o None vs).
+(* v1.NormalizedLabels: deprecated label keys are rewritten by NewRequirementWithFlexibility (the value table
+   v1.NormalizedLabelValues is empty in core; the harness checks both tables against the code on every run) *)
+Definition norm_table : list (string * string) :=
+  [("failure-domain.beta.kubernetes.io/zone", "topology.kubernetes.io/zone");
+   ("beta.kubernetes.io/arch", "kubernetes.io/arch");
+   ("beta.kubernetes.io/os", "kubernetes.io/os");
+   ("beta.kubernetes.io/instance-type", "node.kubernetes.io/instance-type");
+   ("failure-domain.beta.kubernetes.io/region", "topology.kubernetes.io/region")].
+Definition nk (k : string) : string := norm_key norm_table k.
+
+Definition expr_req (e : expr) : string * req := let '(k, o, vs) := e in (nk k, new_req o None vs).
 
 (* NewNodeSelectorRequirements(term...) *)
 Definition term_reqs (t : term) : reqs := add [] (map expr_req t).
 (* NewLabelRequirements(nodeSelector) *)
-Definition sel_reqs (s : list (string * string)) : reqs := add [] (map (fun kv => (fst kv, new_req In None [snd kv])) s).
+Definition sel_reqs (s : list (string * string)) : reqs := add [] (map (fun kv => (nk (fst kv), new_req In None [snd kv])) s).
 
 (* stable sort, descending weight (sort.SliceStable(terms, w[i] > w[j])): an earlier element stays in front of
    later ones of equal weight *)
@@ -222,6 +236,49 @@ Definition set_minv (r : reqs) (unsat : list (string * Z)) : reqs :=
                  | None => kr
                  end) r.
 
+(* ------------------------------------------------------------------ volumes *)
+(* scheduling.Volumes as a list of (driver, pvc id) pairs; VolumeUsage = the union so far + per-driver limits *)
+Definition vols := list (string * string).
+Definition vcount (d : string) (v : vols) : Z :=
+  Z.of_nat (length (dedup (map snd (filter (fun dv => String.eqb (fst dv) d) v)))).
+(* VolumeUsage.ExceedsLimits(vols) != nil *)
+Definition exceeds_limits (limits : list (string * Z)) (used new : vols) : bool :=
+  existsb (fun dl => snd dl <? vcount (fst dl) (used ++ new)) limits.
+
+(* VolumeTopology.getPersistentVolumeRequirements / getStorageClassRequirements: the alternatives one volume contributes.
+   [local]: Local / HostPath volume, whose hostname expressions are ignored *)
+Definition hostname_key : string := "kubernetes.io/hostname".
+Definition vol_alts (local : bool) (terms : list term) : list reqs :=
+  flat_map (fun t : term =>
+    let t' := if local then filter (fun x : expr => negb (String.eqb (fst (fst x)) hostname_key)) t else t in
+    match t, t' with
+    | _ :: _, [] => if local then [[]] else []
+    | _, [] => []
+    | _, _ => [term_reqs t']
+    end) terms.
+
+(* mergeVolumeRequirementAlternatives: cross product, keeping only the branches whose requirements intersect unless
+   that prunes everything *)
+Definition merge_alts (alts volalts : list reqs) : list reqs :=
+  let comp := flat_map (fun ex => flat_map (fun v => if intersects ex v then [add (add [] ex) v] else []) volalts) alts in
+  match comp with
+  | [] => flat_map (fun ex => map (fun v => add (add [] ex) v) volalts) alts
+  | _ => comp
+  end.
+
+(* VolumeTopology.GetRequirements: None = the pod's volumes impose nothing *)
+Definition pod_vol_alts (volumes : list (bool * list term)) : list reqs :=
+  let contributing := filter (fun l => match l with [] => false | _ => true end)
+                             (map (fun v : bool * list term => vol_alts (fst v) (snd v)) volumes) in
+  match contributing with
+  | [] => []
+  | _ => fold_left merge_alts contributing [[]]
+  end.
+
+(* the alternatives CanAdd iterates: a single "no constraint" entry when there are none *)
+Definition alt_list (p : pod) : list (option reqs) :=
+  match p_valts p with [] => [None] | l => map Some l end.
+
 (* ------------------------------------------------------------------ NodeClaim *)
 Record nclaim := mkNC {
   nc_taints : list taint;
@@ -232,12 +289,39 @@ Record nclaim := mkNC {
   nc_pods : list pod
 }.
 
-Inductive err := ETaints | EReqs | EFilter | EMinValues | EPorts | EResources.
+Inductive err := ETaints | EReqs | EFilter | EMinValues | EPorts | EResources | EVolumes | EVolReqs.
 
 Inductive res (A : Type) := Ok (a : A) | Err (e : err).
 Arguments Ok {A} a. Arguments Err {A} e.
 
 (* NodeClaim.CanAdd (empty topology, no volume alternatives): updated requirements, instance types.
+   [all]: preference policy Respect (pod requirements include the heaviest preferred term). *)
+(* the first alternative that succeeds; otherwise the error of the last one *)
+Fixpoint first_ok {A B} (f : A -> res B) (l : list A) (last : res B) : res B :=
+  match l with
+  | [] => last
+  | a :: t => match f a with Ok b => Ok b | Err e => first_ok f t (Err e) end
+  end.
+
+(* NodeClaim.tryVolumeAlternative (empty topology, no DRA) *)
+Definition nc_try (wk : list string) (cat : list itype) (relax : bool) (n : nclaim) (p : pod) (base : reqs) (alt : option reqs)
+  : res (reqs * list string) :=
+  let r' := match alt with
+            | None => Ok base
+            | Some a => if compatible wk base a then Ok (add base a) else Err EVolReqs
+            end in
+  match r' with
+  | Err e => Err e
+  | Ok r =>
+      let total := rmerge (nc_requests n) (p_requests p) in
+      match filter_its wk cat (nc_its n) r (p_key p) (p_ports p) (nc_groups n) total relax with
+      | (_, _, Some FMinValues) => Err EMinValues
+      | (_, _, Some FNone) => Err EFilter
+      | (rem, unsat, None) => Ok ((if relax then set_minv r unsat else r), map it_name rem)
+      end
+  end.
+
+(* NodeClaim.CanAdd: updated requirements, instance types.
    [all]: preference policy Respect (pod requirements include the heaviest preferred term). *)
 Definition nc_can_add (wk : list string) (cat : list itype) (all relax : bool) (n : nclaim) (p : pod)
   : res (reqs * list string) :=
@@ -245,14 +329,7 @@ Definition nc_can_add (wk : list string) (cat : list itype) (all relax : bool) (
   else
     let pr := pod_reqs all p in
     if negb (compatible wk (nc_reqs n) pr) then Err EReqs
-    else
-      let r := add (nc_reqs n) pr in
-      let total := rmerge (nc_requests n) (p_requests p) in
-      match filter_its wk cat (nc_its n) r (p_key p) (p_ports p) (nc_groups n) total relax with
-      | (_, _, Some FMinValues) => Err EMinValues
-      | (_, _, Some FNone) => Err EFilter
-      | (rem, unsat, None) => Ok ((if relax then set_minv r unsat else r), map it_name rem)
-      end.
+    else first_ok (nc_try wk cat relax n p (add (nc_reqs n) pr)) (alt_list p) (Err EVolReqs).
 
 (* NodeClaim.Add *)
 Definition nc_add (n : nclaim) (p : pod) (r : reqs) (its : list string) : nclaim :=
@@ -273,7 +350,9 @@ Record enode := mkEN {
   en_reqs : reqs;
   en_remaining : rl;
   en_ports : usage;
-  en_pods : list pod
+  en_pods : list pod;
+  en_vols : vols;                    (* VolumeUsage.volumes *)
+  en_vlimits : list (string * Z)     (* VolumeUsage.limits (CSINode allocatable counts) *)
 }.
 
 (* NewExistingNode: remaining = available - max(0, daemonResources - alreadyScheduledDaemonRequests) *)
@@ -282,17 +361,25 @@ Definition new_existing_remaining (available daemon_total ds_scheduled : rl) : r
   let d := map (fun kv => (fst kv, if snd kv <? 0 then 0 else snd kv)) d in
   rsub available d.
 
+Definition ex_try (base : reqs) (alt : option reqs) : res reqs :=
+  match alt with
+  | None => Ok base
+  | Some a => if compatible [] base a then Ok (add base a) else Err EVolReqs
+  end.
+
 Definition ex_can_add (all : bool) (n : enode) (p : pod) : res reqs :=
   if negb (tolerates_all (en_taints n) (p_tols p)) then Err ETaints
+  else if exceeds_limits (en_vlimits n) (en_vols n) (p_vols p) then Err EVolumes
   else if conflicts (en_ports n) (p_key p) (p_ports p) then Err EPorts
   else if negb (fits (p_requests p) (en_remaining n)) then Err EResources
   else
     let pr := pod_reqs all p in
     if negb (compatible [] (en_reqs n) pr) then Err EReqs
-    else Ok (add (en_reqs n) pr).
+    else first_ok (ex_try (add (en_reqs n) pr)) (alt_list p) (Err EVolReqs).
 
 Definition ex_add (n : enode) (p : pod) (r : reqs) : enode :=
-  mkEN (en_taints n) r (rsub_from (en_remaining n) (p_requests p)) (uset (en_ports n) (p_key p) (p_ports p)) (en_pods n ++ [p]).
+  mkEN (en_taints n) r (rsub_from (en_remaining n) (p_requests p)) (uset (en_ports n) (p_key p) (p_ports p)) (en_pods n ++ [p])
+       (en_vols n ++ p_vols p) (en_vlimits n).
 
 Definition ex_step (all : bool) (n : enode) (p : pod) : enode * res reqs :=
   match ex_can_add all n p with
@@ -307,17 +394,17 @@ Definition tol_eqb (a b : toleration) : bool :=
   String.eqb (tl_op a) (tl_op b) && String.eqb (tl_val a) (tl_val b).
 
 Definition with_req (p : pod) (x : list term) : pod :=
-  mkPod (p_key p) (p_sel p) x (p_pref p) (p_paff p) (p_panti p) (p_tsc p) (p_tols p) (p_ports p) (p_requests p).
+  mkPod (p_key p) (p_sel p) x (p_pref p) (p_paff p) (p_panti p) (p_tsc p) (p_tols p) (p_ports p) (p_requests p) (p_vols p) (p_valts p) (p_volterms p).
 Definition with_pref (p : pod) (x : list (Z * term)) : pod :=
-  mkPod (p_key p) (p_sel p) (p_req p) x (p_paff p) (p_panti p) (p_tsc p) (p_tols p) (p_ports p) (p_requests p).
+  mkPod (p_key p) (p_sel p) (p_req p) x (p_paff p) (p_panti p) (p_tsc p) (p_tols p) (p_ports p) (p_requests p) (p_vols p) (p_valts p) (p_volterms p).
 Definition with_paff (p : pod) (x : list (Z * string)) : pod :=
-  mkPod (p_key p) (p_sel p) (p_req p) (p_pref p) x (p_panti p) (p_tsc p) (p_tols p) (p_ports p) (p_requests p).
+  mkPod (p_key p) (p_sel p) (p_req p) (p_pref p) x (p_panti p) (p_tsc p) (p_tols p) (p_ports p) (p_requests p) (p_vols p) (p_valts p) (p_volterms p).
 Definition with_panti (p : pod) (x : list (Z * string)) : pod :=
-  mkPod (p_key p) (p_sel p) (p_req p) (p_pref p) (p_paff p) x (p_tsc p) (p_tols p) (p_ports p) (p_requests p).
+  mkPod (p_key p) (p_sel p) (p_req p) (p_pref p) (p_paff p) x (p_tsc p) (p_tols p) (p_ports p) (p_requests p) (p_vols p) (p_valts p) (p_volterms p).
 Definition with_tsc (p : pod) (x : list (string * bool)) : pod :=
-  mkPod (p_key p) (p_sel p) (p_req p) (p_pref p) (p_paff p) (p_panti p) x (p_tols p) (p_ports p) (p_requests p).
+  mkPod (p_key p) (p_sel p) (p_req p) (p_pref p) (p_paff p) (p_panti p) x (p_tols p) (p_ports p) (p_requests p) (p_vols p) (p_valts p) (p_volterms p).
 Definition with_tols (p : pod) (x : list toleration) : pod :=
-  mkPod (p_key p) (p_sel p) (p_req p) (p_pref p) (p_paff p) (p_panti p) (p_tsc p) x (p_ports p) (p_requests p).
+  mkPod (p_key p) (p_sel p) (p_req p) (p_pref p) (p_paff p) (p_panti p) (p_tsc p) x (p_ports p) (p_requests p) (p_vols p) (p_valts p) (p_volterms p).
 
 (* removeTopologySpreadScheduleAnyway: first ScheduleAnyway entry is overwritten with the last, slice shrinks by one *)
 Fixpoint tsc_remove (l : list (string * bool)) : option (list (string * bool)) :=
@@ -411,20 +498,32 @@ Definition rsum (ls : list rl) (k : string) : Z := fold_right (fun l acc => rget
 Definition resources_ok (ps : list pod) (overhead alloc : rl) : Prop :=
   forall k, rsum (map p_requests ps) k + rget k overhead <= rget k alloc.
 
-(* a node view: effective label requirements, taints, allocatable, expected daemons *)
+(* every volume of the pod is usable from the node: it has no topology terms, or some OR-ed term of its PV node
+   affinity / StorageClass allowedTopologies holds for every label the node may get *)
+Definition vol_zone_ok (eff : string -> option req) (p : pod) : Prop :=
+  forall terms, List.In terms (p_volterms p) ->
+    terms = [] \/ exists t, List.In t terms /\ forall x, List.In x t -> expr_ok eff x.
+
+(* distinct volumes per CSI driver within the node's attach limits (CSINode allocatable count) *)
+Definition vol_limits_ok (limits : list (string * Z)) (ps : list pod) : Prop :=
+  forall d l, List.In (d, l) limits -> vcount d (flat_map p_vols ps) <= l.
+
+(* a node view: effective label requirements, taints, allocatable, expected daemons, CSI attach limits *)
 Record nview := mkView {
   v_eff : string -> option req;
   v_taints : list taint;
   v_alloc : rl;
   v_overhead : rl;
-  v_dports : list hp
+  v_dports : list hp;
+  v_vlimits : list (string * Z)
 }.
 
 (* [ps]: the pods with their ORIGINAL specs *)
 Definition admissible (v : nview) (ps : list pod) : Prop :=
-  (forall p, List.In p ps -> labels_ok (v_eff v) p /\ k8s_tolerated (v_taints v) (p_tols p)) /\
+  (forall p, List.In p ps -> labels_ok (v_eff v) p /\ k8s_tolerated (v_taints v) (p_tols p) /\ vol_zone_ok (v_eff v) p) /\
   ports_ok ps (v_dports v) /\
-  resources_ok ps (v_overhead v) (v_alloc v).
+  resources_ok ps (v_overhead v) (v_alloc v) /\
+  vol_limits_ok (v_vlimits v) ps.
 
 (* relaxation may only: drop leading OR-ed required terms while one is left, drop preferred terms,
    drop ScheduleAnyway spread constraints, append the PreferNoSchedule toleration *)
@@ -512,9 +611,15 @@ Definition resources_ok_b (ps : list pod) (overhead alloc : rl) : bool :=
   forallb (fun k => rsum (map p_requests ps) k + rget k overhead <=? rget k alloc)
           (rkeys (overhead :: alloc :: map p_requests ps)) .
 
+Definition vol_zone_ok_b (eff : string -> option req) (p : pod) : bool :=
+  forallb (fun terms => match terms with [] => true | _ => existsb (fun t => forallb (expr_ok_b eff) t) terms end) (p_volterms p).
+
+Definition vol_limits_ok_b (limits : list (string * Z)) (ps : list pod) : bool :=
+  forallb (fun dl => vcount (fst dl) (flat_map p_vols ps) <=? snd dl) limits.
+
 Definition admissible_b (v : nview) (ps : list pod) : bool :=
-  forallb (fun p => labels_ok_b (v_eff v) p && k8s_tolerated_b (v_taints v) (p_tols p)) ps &&
-  ports_ok_b ps (v_dports v) && resources_ok_b ps (v_overhead v) (v_alloc v).
+  forallb (fun p => labels_ok_b (v_eff v) p && k8s_tolerated_b (v_taints v) (p_tols p) && vol_zone_ok_b (v_eff v) p) ps &&
+  ports_ok_b ps (v_dports v) && resources_ok_b ps (v_overhead v) (v_alloc v) && vol_limits_ok_b (v_vlimits v) ps.
 
 (* ---- expected daemons: a daemon MAY run on the node when some labelling the node can get
    satisfies its selector and one of its required terms and its taints are tolerated (over-approximation
@@ -560,13 +665,15 @@ Definition inter_o (a : option req) (b : option req) : option req :=
   | None, b => b
   end.
 
-Definition eff_new (wk : list string) (r it_r of_r : reqs) (k : string) : option req :=
+Definition eff_new (wk : list string) (r it_r of_r : reqs) (k0 : string) : option req :=
+  let k := nk k0 in     (* a deprecated key carries the same value as the label it aliases (the kubelet sets both) *)
   match inter_o (find k r) (inter_o (find k it_r) (find k of_r)) with
   | Some e => Some e
   | None => if mem k wk then None else Some (req_dne None)      (* a custom label nobody defines is absent *)
   end.
 
-Definition eff_labels (labels : list (string * string)) (k : string) : option req :=
+Definition eff_labels (labels : list (string * string)) (k0 : string) : option req :=
+  let k := if mem k0 (map fst labels) then k0 else nk k0 in
   match List.find (fun kv => String.eqb k (fst kv)) labels with
   | Some kv => Some (new_req In None [snd kv])
   | None => Some (req_dne None)
@@ -578,7 +685,7 @@ Record lopt := mkOpt { o_name : string; o_reqs : reqs; o_offers : list offer }.
 Definition view_new (wk : list string) (r : reqs) (ts : list taint) (o : lopt) (f : offer) (daemons : list pod) : nview :=
   let eff := eff_new wk r (o_reqs o) (of_reqs f) in
   let ds := expected_daemons eff ts daemons in
-  mkView eff ts (of_alloc f) (roverhead ds) (flat_map p_ports ds).
+  mkView eff ts (of_alloc f) (roverhead ds) (flat_map p_ports ds) [].   (* no CSINode yet: no attach limit is known for a new claim *)
 
 (* for EVERY remaining instance type SOME available offering compatible with the claim's requirements
    under which the placement of all pods is admissible *)
@@ -590,14 +697,15 @@ Definition claim_admissible_b (wk : list string) (r : reqs) (ts : list taint) (o
 
 (* an existing node: labels are known; [bound] are the pods already on it (their requests count),
    [daemons] the daemonsets without a pod on the node yet *)
-Definition view_existing (labels : list (string * string)) (ts : list taint) (alloc : rl) (daemons : list pod) : nview :=
+Definition view_existing (labels : list (string * string)) (ts : list taint) (alloc : rl) (vlimits : list (string * Z)) (daemons : list pod) : nview :=
   let eff := eff_labels labels in
   let ds := expected_daemons eff ts daemons in
-  mkView eff ts alloc (roverhead ds) (flat_map p_ports ds).
+  mkView eff ts alloc (roverhead ds) (flat_map p_ports ds) vlimits.
 
 (* bound pods are facts (ports and requests count, their own constraints are not re-judged) *)
-Definition existing_admissible_b (labels : list (string * string)) (ts : list taint) (alloc : rl)
+Definition existing_admissible_b (labels : list (string * string)) (ts : list taint) (alloc : rl) (vlimits : list (string * Z))
            (bound placed daemons : list pod) : bool :=
-  let v := view_existing labels ts alloc daemons in
-  forallb (fun p => labels_ok_b (v_eff v) p && k8s_tolerated_b (v_taints v) (p_tols p)) placed &&
-  ports_ok_gen_b placed (placed ++ bound) (v_dports v) && resources_ok_b (placed ++ bound) (v_overhead v) (v_alloc v).
+  let v := view_existing labels ts alloc vlimits daemons in
+  forallb (fun p => labels_ok_b (v_eff v) p && k8s_tolerated_b (v_taints v) (p_tols p) && vol_zone_ok_b (v_eff v) p) placed &&
+  ports_ok_gen_b placed (placed ++ bound) (v_dports v) && resources_ok_b (placed ++ bound) (v_overhead v) (v_alloc v) &&
+  vol_limits_ok_b (v_vlimits v) (placed ++ bound).
